@@ -311,7 +311,7 @@ def container_many_rule(chk, facts, C, op, rule, lengths=(255, 256, 257, 1024)):
         for const in (1, 0):
             key = "%s::value over %d terms that are all %d" % (short, L, const)
             try:
-                it = Interp(facts, max_steps=50000000)
+                it = Interp(facts, max_steps=400000)
                 if "value" not in ms:
                     raise Undecided("term type has no value()")
                 it.opaque_fns[ms["value"]["key"]] = lambda interp, fr, args, st, pc, t, c_=const: [Outcome("return", st, pc, wbool(c_))]
